@@ -42,7 +42,8 @@ class LifeGen(storegen.HistGen):
         elif r < 0.60:
             u = {}
             for f, vals in (("type", ["t2", "tü3"]), ("client", ["c2"]), ("hostname", ["h2", "hö3"]),
-                            ("name", ["n2", "nü3"]), ("data", ['{"k": 1}', '{"n": {"m": [1, null]}}'])):
+                            ("name", ["n2", "nü3"]), ("data", ['{"k": 1}', '{"k": true}', '{"k": 1.0}', '{"k": [0, 1]}', '{"k": [false, true]}',
+                                                                '{"n": {"m": [1, null]}}', '{"n": {"m": [true, null]}}'])):
                 if self.rng.random() < 0.4:
                     u[f] = self.rng.choice(vals)
             if not u:
@@ -124,6 +125,15 @@ class C05(Prop):
             g.ops.append(["buckets"])
             for be in storelib.BACKENDS:
                 out.append(("recreate-history", {"backend": be, "ops": g.ops}))
+        # a bucket holding more events than any internal batch (10 000) is deleted and its id created again
+        if True:
+            n = 10_500
+            evs = [[None, storegen.T0 + k * 1000, 1000, storegen.LABELS[k % 2]] for k in range(n)]
+            ops = [["create", "b0", storegen.mk_meta(rng, "b0")], ["create", "b1", storegen.mk_meta(rng, "b1")],
+                   ["bulk", "b1", evs], ["delbucket", "b1"], ["create", "b1", storegen.mk_meta(rng, "b1")],
+                   ["insert", "b1", storegen.rand_ev(rng)], ["buckets"]]
+            for be in storelib.BACKENDS:
+                out.append(("huge-bucket-recreate", {"backend": be, "ops": ops}))
         # a restart right after the buckets exist, then every kind of bucket and event operation on the existing buckets
         for i in range(ctx.pick(30, 400)):
             g = LifeGen(rng)
@@ -261,6 +271,8 @@ class C05(Prop):
 
     @staticmethod
     def _meta_mismatch(exp, got):
+        if len(got) != 6:
+            return " ".join(str(x) for x in got)  # (the runner's note that a kept handle and the store disagree)
         name, typ, client, host, created, data = got
         if (typ, client, host, created, data) != (exp["type"], exp["client"], exp["hostname"], exp["created"], exp["data"]):
             return f"metadata {got} differs from what was given {exp}"
